@@ -62,8 +62,12 @@ Definition bad_cond_less_and_greater (e : expr) : bool :=
 Definition bad_cond_message (e : expr) : string := "`" ++ print_expr e ++ "` condition is always false".
 
 (* ---------- sloppyLen ---------- *)
+(* gogrep matches the pattern literal 0 by value: 0, 00, 0x0, 0b0 ... *)
 Definition is_zero_lit (e : expr) : bool :=
-  match e with ELit LInt s _ => String.eqb s "0" | _ => false end.
+  match e with
+  | ELit LInt s _ => match go_int_lit s with Some 0%Z => true | _ => false end
+  | _ => false
+  end.
 (* Some true / Some false: the claimed constant outcome *)
 Definition sloppy_len_claim (e : expr) : option bool :=
   match e with
